@@ -267,14 +267,17 @@ _REF = {}
 _TGT = {}
 
 
-def ref_molecule(n, edges, nres=1):
-    key = (n, tuple(tuple(e) for e in edges), nres)
+def ref_molecule(n, edges, nres=1, hnames=False):
+    """hnames: every second atom (0-based 1, 3, ...) is called H<k> - a hydrogen by its name - the others C<k>."""
+    key = (n, tuple(tuple(e) for e in edges), nres, bool(hnames))
     if key not in _REF:
         if len(_REF) > 64:
             _REF.clear()
         atoms = simple_atoms(n, 'REF', 'C')
         if nres == 2:                 # two residues (the map requires as many residues as its target has)
             atoms = [(f'C{i + 1}', 'RFA' if i < 1 else 'RFB', 1 if i < 1 else 2) for i in range(n)]
+        if hnames:
+            atoms = [((f'H{i + 1}' if i % 2 else a[0]),) + tuple(a[1:]) for i, a in enumerate(atoms)]
         _REF[key] = molecule('REF', atoms, [tuple(e) for e in edges], generic_points(n, 0, tag=1))
     return _REF[key]
 
